@@ -19,6 +19,10 @@ type Bias struct {
 	MaxOps    int
 	Cancel    bool // allow an explicit cancel in the middle
 	LaneFocus bool // push most tasks to the pinned / one lane
+	// PanicStreak: one program in eight starts with 12..40 panicking tasks in a row on lane 0 (in half of them the
+	// only lane), each followed by a settle, and then an ordinary task: whatever a worker remembers about the panics
+	// it has recovered from, the next task is served like the first
+	PanicStreak bool
 }
 
 var Points = []string{"Q1", "Q2", "Q3", "W1", "W2", "P1", "P2"}
@@ -61,6 +65,24 @@ func GenProgram(b Bias) *rapid.Generator[Program] {
 		}
 		if rapid.IntRange(0, 99).Draw(t, "useDeadline") < b.Deadline {
 			p.Deadline = rapid.SampledFrom([]time.Duration{50 * time.Millisecond, 500 * time.Millisecond, 3 * time.Second, 30 * time.Second}).Draw(t, "deadline")
+		}
+		if b.PanicStreak && rapid.IntRange(0, 7).Draw(t, "panicStreak") == 0 {
+			if rapid.Bool().Draw(t, "singleLane") {
+				p.LaneSize = 1
+			}
+			p.Deadline = 0
+			n := rapid.SampledFrom([]int{12, 16, 24, 40}).Draw(t, "streakLength")
+			same := rapid.Bool().Draw(t, "sameValueEveryTime")
+			v0 := rapid.IntRange(0, len(PanicValues)-1).Draw(t, "streakValue")
+			for i := 0; i < n; i++ {
+				v := v0
+				if !same {
+					v = (v0 + i) % len(PanicValues)
+				}
+				p.Ops = append(p.Ops, Op{Kind: OpPush, Lane: 0, Task: TaskSpec{Kind: TPanic, Panic: v}}, Op{Kind: OpSettle})
+			}
+			p.Ops = append(p.Ops, Op{Kind: OpPush, Lane: 0, Task: TaskSpec{Kind: TInstant}}, Op{Kind: OpSettle})
+			p.Streak = n
 		}
 		focus := 0
 		if b.PinFirst {
